@@ -106,11 +106,12 @@ VARIABLE dummy
 GInit == dummy \in Cases
 GNext == FALSE /\ UNCHANGED dummy
 Emit == PrintT(ToJson([f |-> dummy.f, k |-> dummy.k, log |-> dummy.log, out |-> Outcome(dummy.f, dummy.k)]))
-==========================================================================\* field lines aimed at the parsers the proxy itself runs on every request (Via chain scan with comments and quoted
+\* field lines aimed at the parsers the proxy itself runs on every request (Via chain scan with comments and quoted
 \* pairs, Forwarded / X-Forwarded-For, Connection options, the two credential fields, Upgrade): each goes out in an
 \* otherwise ordinary GET; the expectation is the module's general one - an HTTP response or a close, the proxy serves on
 HostileFields == <<"viaOpenCommentBackslashEnd", "viaOnlyCommentBackslash", "viaNestedQuotedPair", "viaBackslash", "viaEmptyElements",
                    "viaNoReceivedBy", "viaDeepNesting", "forwardedOpenQuote", "forwardedEmptyPairs", "xffEmptyElements",
                    "connectionOddTokens", "proxyAuthNoCredentials", "proxyAuthPaddingOnly", "authorizationNotUTF8",
                    "upgradeEmptyToken", "keepAliveOddParams", "teOddParams", "aeLongWeight">>
-====
+ASSUME PrintT(ToJson([hostileFields |-> HostileFields]))
+==============================================================================
